@@ -33,7 +33,8 @@ Inductive skel :=
 | Check                                  (* rng = check_random_state(random_state) *)
 | Draw (t : nat)                         (* rng.<sampling method>(...) *)
 | DrawNp (t : nat)                       (* np.random.<function>(...): the global generator *)
-| Call (a : argexp) (body : skel).       (* callee(..., random_state=a): body runs in a new scope *)
+| Call (a : argexp) (body : skel)        (* callee(..., random_state=a): body runs in a new scope *)
+| Reseed (t : nat).                      (* rng = RandomState(<expr>): a CHILD generator seeded with an int computed from the values drawn so far *)
 
 Fixpoint seqs (l : list skel) : skel := match l with [] => Skip | x :: r => Seq x (seqs r) end.
 
@@ -97,6 +98,7 @@ Fixpoint gf (sk : skel) (p : aparam) (c : acur) : option acur :=
   | Draw _ => match c with ALoc => Some c | _ => None end
   | DrawNp _ => None
   | Call a body => match gf body (aarg a p c) AUnset with Some _ => Some c | None => None end
+  | Reseed _ => None            (* may raise (seed out of range): left to the second analysis *)
   end.
 
 Definition global_free (sk : skel) (p : aparam) : bool :=
@@ -129,6 +131,7 @@ Fixpoint gfw (sk : skel) (p c : wcur) : option wcur :=
   | Draw _ => match c with WSafe => Some WSafe | WUnsafe => None end
   | DrawNp _ => None
   | Call a body => match gfw body (warg a p c) WSafe with Some _ => Some c | None => None end
+  | Reseed _ => Some WSafe      (* a fresh object, or unset after a ValueError: never the global generator *)
   end.
 
 (* random_state is an int, a generator object other than the global one, or junk *)
@@ -137,7 +140,7 @@ Definition global_free_w (sk : skel) : bool := match gfw sk WSafe WSafe with Som
 (* no draw at all, from any generator (RNG-free functions) *)
 Fixpoint draw_free (sk : skel) : bool :=
   match sk with
-  | Skip | Check => true
+  | Skip | Check | Reseed _ => true
   | Seq a b | Branch _ a b => draw_free a && draw_free b
   | For _ _ body | Call _ body => draw_free body
   | Draw _ | DrawNp _ => false
@@ -226,6 +229,10 @@ Definition crs_by_table (tbl : list (crs_test * crs_action)) (dflt : crs_action)
   | _, _ => (None, failL w)
   end.
 
+(* RandomState(<expr>): a fresh object seeded with the int the expression evaluates to (ValueError when out of range) *)
+Definition seed_from (I : interp) (t : nat) (w : lworld) : option gen * lworld :=
+  check_random_state (VInt (as_seed I t (hist w))) (tickL w).
+
 Definition draw_obj (I : interp) (t h : nat) (w : lworld) : lworld :=
   match nth_error (heap w) h with
   | Some gs => let (v, gs') := draw (request I t (hist w)) gs in
@@ -257,6 +264,7 @@ Fixpoint run_local (I : interp) (sk : skel) (p : rsval) (c : option gen) (w : lw
               end
   | DrawNp _ => None
   | Call a body => match run_local I body (eval_arg a p c) None w with Some (_, w1) => Some (c, w1) | None => None end
+  | Reseed t => Some (seed_from I t w)
   end.
 
 (* the whole process: global generator g; before every step the environment (other code, callbacks,
@@ -289,6 +297,7 @@ Fixpoint run (I : interp) (sk : skel) (p : rsval) (c : option gen) (w : lworld) 
               end
   | DrawNp t => let (w1, g1) := draw_glob I t (tickL w) (env (ticks w) g) in (c, w1, g1)
   | Call a body => let '(_, w1, g1) := run I body (eval_arg a p c) None w g in (c, w1, g1)
+  | Reseed t => let (c1, w1) := seed_from I t w in (c1, w1, env (ticks w) g)
   end.
 
 (* what the environment alone does to the global generator during steps t .. t+k-1 *)
@@ -319,6 +328,7 @@ Definition call_local (I : interp) (sk : skel) (a : rsarg) : option outcome :=
 
 End Sem.
 
+Arguments seed_from : simpl never.
 Arguments heap {gstate value}. Arguments hist {gstate value}. Arguments ticks {gstate value}.
 Arguments srcs {gstate value}. Arguments failed {gstate value}.
 Arguments decide {value req}. Arguments stop {value req}. Arguments request {value req}. Arguments as_seed {value req}.
@@ -427,6 +437,7 @@ Fixpoint embed (sk : skel) : pskel :=
   | Draw t => PDraw 1 t
   | DrawNp t => PDrawNp t
   | Call a body => PCall (embed_arg a) (embed body)
+  | Reseed t => PSeedFrom 1 t
   end.
 
 (* source level: the scope certainly passes its own random_state argument (variable 0, not re-bound before) to
@@ -455,10 +466,6 @@ Variable seed : Z -> gstate.
 Notation lw := (lworld gstate value).
 Notation I_ := (interp value req).
 
-(* x = RandomState(<expr>): a fresh object seeded with the int the expression evaluates to (ValueError when out of range) *)
-Definition seed_from (I : I_) (t : nat) (w : lw) : option gen * lw :=
-  check_random_state gstate value seed (VInt (as_seed I t (hist w))) (tickL gstate value w).
-
 Fixpoint ploopL (f : list rsval -> lw -> option (list rsval * lw)) (stp : nat -> list value -> bool)
          (k i : nat) (env : list rsval) (w : lw) : option (list rsval * lw) :=
   match k with
@@ -485,7 +492,7 @@ Fixpoint prun_local (I : I_) (sk : pskel) (env : list rsval) (w : lw) : option (
   | PDrawNp _ => None
   | PCall e body => match prun_local I body [peval e env] w with Some (_, w1) => Some (env, w1) | None => None end
   | PFail => Some (env, failL gstate value w)
-  | PSeedFrom x t => let (c1, w1) := seed_from I t w in Some (setv VBad x (of_gen c1) env, w1)
+  | PSeedFrom x t => let (c1, w1) := seed_from gstate value req seed I t w in Some (setv VBad x (of_gen c1) env, w1)
   end.
 
 Variable genv : nat -> gstate -> gstate.
@@ -516,14 +523,12 @@ Fixpoint prun (I : I_) (sk : pskel) (env : list rsval) (w : lw) (g : gstate) : l
   | PDrawNp t => let (w1, g1) := draw_glob gstate value req draw I t (tickL gstate value w) (genv (ticks w) g) in (env, w1, g1)
   | PCall e body => let '(_, w1, g1) := prun I body [peval e env] w g in (env, w1, g1)
   | PFail => (env, failL gstate value w, g)
-  | PSeedFrom x t => let (c1, w1) := seed_from I t w in (setv VBad x (of_gen c1) env, w1, genv (ticks w) g)
+  | PSeedFrom x t => let (c1, w1) := seed_from gstate value req seed I t w in (setv VBad x (of_gen c1) env, w1, genv (ticks w) g)
   end.
 
 Definition pcall (I : I_) (sk : pskel) (a : rsarg gstate) (g : gstate) : outcome gstate value * gstate :=
   let '(_, w, g') := prun I sk [param0 gstate a] (w0 gstate value a) g in (outcome_of gstate value a w, g').
 End PSem.
-
-Arguments seed_from : simpl never.
 
 (* ------------------------------------------------------------------ histories of one process *)
 Section Hist.
